@@ -134,6 +134,18 @@ theorem sublist_pair_left {α : Type} (a b : α) (A B : List α)
     exact h1
   | x :: y :: z :: r, heq => simp at heq
 
+theorem pair_split {α : Type} (a b : α) (l : List α) (h : [a, b].Sublist l) :
+    ∃ x y z, l = x ++ a :: y ++ b :: z := by
+  induction l with
+  | nil => cases h
+  | cons c l ih =>
+    cases h with
+    | cons _ h => obtain ⟨x, y, z, rfl⟩ := ih h; exact ⟨c :: x, y, z, by simp⟩
+    | cons_cons _ h =>
+      have : b ∈ l := h.subset (by simp)
+      obtain ⟨y, z, rfl⟩ := List.append_of_mem this
+      exact ⟨[], y, z, by simp⟩
+
 /-! ### FIFO -/
 
 theorem fifo_aux (progs : List (List Op)) (s : Sys) (h : WInv progs s) (t : Tid) (p q : Pkt)
@@ -214,5 +226,18 @@ theorem dctx_stable (cfg : Cfg) (s s' : Sys) (t u : Tid) (c : DCtx)
     (s'.thr u).pc.dctx = some c ∨ (t = u ∧ (s'.thr u).pc = .user .idle) := by
   step_cases hs hpc htd
   all_goals grind [upd, Pc.dctx]
+
+/-! ### `fail` is only ever raised to the caller of a forced write -/
+
+theorem fail_only_forced (cfg : Cfg) (progs : List (List Op)) (s s' : Sys) (t : Tid)
+    (h : WInv progs s) (hs : step cfg s t = some s') (hf : s'.log = s.log ++ [(t, .fail)]) :
+    ∃ p, (s.thr t).pc = .user (.fSnd0 p) ∧ s.sockOpen = false ∧ s'.failed = s.failed ++ [p] := by
+  have h1t := h.lock.crit_owner t
+  have hc1 := @cur_of_owner s t
+  have w2 := h.wire.needs_open
+  step_cases hs hpc htd
+  all_goals simp only [List.append_cancel_left_eq, List.cons.injEq, Prod.mk.injEq, and_true,
+    true_and, reduceCtorEq] at hf
+  all_goals grind [Pc.crit, UPc.crit, NPc.crit, Pc.needsOpen]
 
 end PyCraft.Writers
